@@ -217,6 +217,12 @@ func (e *keeperEnv) outcomeMonitor(ctx sdk.Context, k *kind, what string, c clai
 	if e.r.nOutcomeBy == nil {
 		e.r.nOutcomeBy = map[string]int{}
 	}
+	// one comparison per distinct event and chain (the fixed scenarios submit the same few events many times)
+	if ek := "seen:" + e.chain + ":" + k.tag + ":" + k.effect(c); e.r.nOutcomeBy[ek] > 0 {
+		return
+	} else {
+		e.r.nOutcomeBy[ek]++
+	}
 	if bk := e.chain + ":" + k.tag; e.r.nOutcomeBy[bk] >= hx.N(30, 300) {
 		return
 	} else {
@@ -269,6 +275,78 @@ func indexOf(xs []string, x string) int {
 		}
 	}
 	return 0
+}
+
+// bridgeTokenLines: the real AddBridgeTokenExecuted against its regenerated statement list interpreted by the model
+// (`hbt` lines): fresh and already registered contracts, the symbol FX (any spelling near it) with and without 18
+// decimals, on a store that does / does not yet hold the native coin's entry; some runs are kept so that later ones see them
+func (e *keeperEnv) bridgeTokenLines(g *gen, k *kind) {
+	out := e.r.out
+	out.Reset("bridge-token-handler")
+	ctx, _ := e.s.Ctx.CacheContext()
+	store := func(c sdk.Context) func(string) (string, bool) {
+		return func(key string) (string, bool) {
+			bz := c.KVStore(e.s.App.GetKey(e.chain)).Get(ct.GetBridgeDenomKey(key))
+			return string(bz), len(bz) > 0
+		}
+	}
+	for i := 0; i < hx.N(24, 200); i++ {
+		m := k.base(g, e.chain).(*ct.MsgBridgeTokenClaim)
+		switch g.rng.Intn(4) {
+		case 0:
+			m.TokenContract = e.token // registered at set-up
+		}
+		switch g.rng.Intn(5) {
+		case 0, 1:
+			m.Symbol = fxtypes.DefaultDenom
+		case 2:
+			m.Symbol = hx.Pick(g.rng, []string{"fx", "FX ", "FX/FX", "Fx", "F", "FXX"})
+		}
+		switch g.rng.Intn(3) {
+		case 0:
+			m.Decimals = 18
+		case 1:
+			m.Decimals = hx.Pick(g.rng, []uint64{0, 6, 17, 19, 18 + 1<<32})
+		}
+		if verdict(m) != "ok" {
+			continue
+		}
+		bd := ct.NewBridgeDenom(e.chain, m.TokenContract)
+		keys := []string{bd, fxtypes.DefaultDenom}
+		sort.Strings(keys)
+		var pre []string
+		get := store(ctx)
+		for _, kk := range keys {
+			if v, ok := get(kk); ok {
+				pre = append(pre, hx.HexS(kk)+":"+hx.HexS(v))
+			}
+		}
+		preS := "-"
+		if len(pre) > 0 {
+			preS = strings.Join(pre, ",")
+		}
+		cctx, commit := ctx.CacheContext()
+		res := hx.Try(func() error { return e.k.AddBridgeTokenExecuted(cctx, m) })
+		obs := "err"
+		if res == "ok" {
+			var post []string
+			getP := store(cctx)
+			for _, kk := range keys {
+				if v, ok := getP(kk); ok {
+					post = append(post, hx.HexS(kk)+"="+hx.HexS(v))
+				}
+			}
+			sort.Strings(post)
+			obs = "ok " + strings.Join(post, ",")
+			if g.rng.Intn(2) == 0 {
+				commit()
+			}
+		} else if strings.HasPrefix(res, "panic:") {
+			obs = "panic"
+		}
+		out.Count("bridge-token-handler:" + strings.SplitN(obs, " ", 2)[0] + ":" + map[bool]string{true: "FX", false: "other"}[m.Symbol == fxtypes.DefaultDenom])
+		out.Emit(fmt.Sprintf("hbt %s %s %s %s", hx.HexS(e.chain), preS, k.line(m), ckBit(k, m)), obs)
+	}
 }
 
 // keyLines: types.GetAttestationKey / GetPendingExecuteClaimKey against the regenerated layouts interpreted by the model
@@ -640,6 +718,7 @@ func keeperRunOn(t *testing.T, r *run, g *gen, ks map[string]*kind, keeperChain 
 	r.out.Count("keeper:chain:" + keeperChain)
 	kg := &gen{rng: g.rng, pool: e.exts}
 	e.keyLines(g)
+	e.bridgeTokenLines(kg, ks["bt"])
 
 	// disagree: M from everyone except the deviators, who vote D
 	disagree := func(k *kind, what string, m, d claim, deviators []int, order []int) {
